@@ -306,3 +306,48 @@ Definition details_ok (gen : list (string * list (string * string)))
 Definition consumed_agree (spans attrs spl tsd : list string) : bool :=
   same_set spans (kind_fields KSpans) && same_set attrs (kind_fields KTags)
   && same_set spl (kind_fields KSamples) && same_set tsd (kind_fields KSeries).
+
+(* ---------------------------------------------------------------- the loops of the ProcessRequest closures (gen_c02_loops)
+   model/Ingest.v `eff` appends to column j ONE value per element of a request field: the field read for j, except that the
+   time-series closure appends Labels inside the range over MDate (`eff_series`: firstn (length MDate) MLabels).  That is what the
+   code does only while every loop body is straight-line: a `continue` / `break` / `return` / `if` inside a body makes an iteration
+   append to fewer columns than another one (seeded change C02-e: pre-1970 rows skipped in the loop that appends date and labels,
+   while the loops appending fingerprint and type are untouched -- the block is torn and every later row shifted).  The translator
+   emits, per closure, every range loop whose body appends -- (field ranged over, columns appended, number of such control
+   statements) -- and the number of appends guarded by anything else / exits between the first and the last append. *)
+Definition count_fields (k : kind) : list string :=
+  match k with
+  | KSeries => ["MType"; "MDate"; "MFingerprint"; "MDate"]
+  | _ => kind_fields k
+  end.
+Definition loop_t := (string * list string * Z)%type.
+(* the field whose length decides how many values column `c` receives, read off the loops: the field of the (first) loop that
+   appends to c; a column no loop appends to receives its own field as a whole (AppendArr / single element: details_ok) *)
+Definition loop_count_field (cs : list (string * string)) (loops : list loop_t) (c : string) : option string :=
+  match find (fun l => existsb (String.eqb c) (snd (fst l))) loops with
+  | Some l => Some (fst (fst l))
+  | None => match find (fun cf => String.eqb (fst cf) c) cs with Some cf => Some (snd cf) | None => None end
+  end.
+Definition opt_str_eqb (a : option string) (b : string) : bool := match a with Some x => String.eqb x b | None => false end.
+Definition loops_ok (gen : list (string * list (string * string))) (lp : list (string * list loop_t * Z)) : bool :=
+  Nat.eqb (List.length lp) 6
+  && forallb (fun sl => let '(s, loops, guarded) := sl in
+                match service_kind s, find (fun sc => String.eqb (fst sc) s) gen with
+                | Some k, Some sc =>
+                    Z.eqb guarded 0
+                    && forallb (fun l : loop_t => Z.eqb (snd l) 0) loops
+                    (* a column is appended by at most one loop *)
+                    && forallb (fun c => Nat.leb (List.length (filter (fun l : loop_t => existsb (String.eqb c) (snd (fst l))) loops)) 1) (map fst (snd sc))
+                    (* and receives as many values as the model's eff gives it *)
+                    && Nat.eqb (List.length (snd sc)) (List.length (count_fields k))
+                    && forallb (fun cf => opt_str_eqb (loop_count_field (snd sc) loops (fst (fst cf))) (snd cf)) (combine (snd sc) (count_fields k))
+                | _, _ => false
+                end) lp.
+(* what the straight-line loops append for a request whose field f has `len f` elements: per column, in serialize order *)
+Definition appended_counts (cs : list (string * string)) (loops : list loop_t) (len : string -> nat) : list nat :=
+  map (fun cf => match loop_count_field cs loops (fst cf) with Some f => len f | None => O end) cs.
+(* the loop tables of the unchanged tree (the regenerated ones must pass loops_ok; these are the witnesses of the Examples) *)
+Definition series_columns_model : list (string * string) := [("Type", "MType"); ("Date", "MDate"); ("Fingerprint", "MFingerprint"); ("Labels", "MLabels")].
+Definition series_loops_model : list loop_t := [("MDate", ["Date"; "Labels"], 0%Z); ("MFingerprint", ["Fingerprint"], 0%Z); ("MType", ["Type"], 0%Z)].
+(* seeded C02-e: the first loop holds an `if` and a `continue` *)
+Definition series_loops_c02e : list loop_t := [("MDate", ["Date"; "Labels"], 2%Z); ("MFingerprint", ["Fingerprint"], 0%Z); ("MType", ["Type"], 0%Z)].
